@@ -26,8 +26,8 @@ sink spells a null / missing BY value, so group counts do not add up to COUNT.
 (i) a PER bucket that starts before 1970 keeps its identity through the coordinator: the shards emit the bucket start as a signed integer; AggregateStreamMerger::parse_aggregate_row reads a negative
 Int64 / Timestamp bucket through a bit-preserving cast and does not send it through scalar_to_u64 (whose None for a negative value is the 'no bucket' key: all pre-1970 buckets would merge into null).
 """
-FLOOR = 16
-REQUIRED = ["C09.a1", "C09.a2", "C09.a3", "C09.b", "C09.c", "C09.d", "C09.e", "C09.f", "C09.g", "C09.h", "C09.i", "C09.j", "C09.k", "C09.l", "C09.m", "C09/C07.h"]
+FLOOR = 17
+REQUIRED = ["C09.a1", "C09.a2", "C09.a3", "C09.b", "C09.c", "C09.d", "C09.e", "C09.f", "C09.g", "C09.h", "C09.i", "C09.j", "C09.k", "C09.l", "C09.m", "C09.n", "C09/C07.h"]
 
 
 def run(ctx):
@@ -470,3 +470,25 @@ def run(ctx):
             bad.append(("null-counted-as-empty-string", "ColumnConverter::create_string_column turns a null cell into the empty string (string ColumnValues have no null slot): COUNT <field> counts events whose field is null", sp(c, empties[0])))
         return bad
     ctx.run("C09.m", "K10 READS", "agg::ColumnConverter::create_string_column", "a null string cell is not a value for COUNT <field>", m_)
+
+    def n_(inst):
+        """A group's events are spread over flows (memtable, each segment stream, each shard); a flow cannot know which groups the merged
+        result will keep. A flow's sink therefore accumulates every group it meets: no production code bounds the number of groups of
+        a per-flow AggregateSink (AggregateSink::with_group_limit drops the events of every group beyond the bound)."""
+        bad = []
+        wl = F.fn("AggregateSink::with_group_limit")
+        n = 0
+        for k in sorted(F.keys()):
+            if k.startswith("bin:") or k.startswith(wl.key):
+                continue
+            b = F.fn_exact(k)
+            for c in b.calls:
+                if not c.cleanup and c.nname.endswith("AggregateSink::with_group_limit"):
+                    L = b.origins(c.args[1]) if len(c.args) > 1 else set()
+                    if all(l[0] == "agg" and l[1].endswith("Option::None") for l in L) and L:
+                        continue
+                    n += 1
+                    bad.append(("flow-sink-group-bound:%s" % k.split("::{closure")[0].split("::")[-1], "%s bounds the number of groups its AggregateSink accumulates: a flow that has met that many distinct groups drops the events of every further group, although the group's other events (in another flow) are reported - counts and totals come out too small" % k.split("::{closure")[0].split("::")[-1], sp(b, c.bb)))
+        inst.sites.append("production callers of AggregateSink::with_group_limit with a bound: %d" % n)
+        return bad
+    ctx.run("C09.n", "K4 EFFECT", "AggregateSink::with_group_limit callers", "a flow's aggregate sink accumulates every group it meets", n_)
